@@ -45,6 +45,20 @@ func (a *Allocator) toIndex(base net.IP) (uint, error) {
 	return uint(value), nil
 }
 
+// inPool reports whether the 128-bit address ip lies inside the pool
+func (a *Allocator) inPool(ip net.IP) bool {
+	pool, mask := a.containing.IP, a.containing.Mask
+	if len(ip) != net.IPv6len || len(pool) != net.IPv6len || len(mask) != net.IPv6len {
+		return false
+	}
+	for i := range ip {
+		if ip[i]&mask[i] != pool[i]&mask[i] {
+			return false
+		}
+	}
+	return true
+}
+
 func (a *Allocator) toPrefix(idx uint) (net.IP, error) {
 	return allocators.AddPrefixes(a.containing.IP, uint64(idx), uint64(a.page))
 }
@@ -90,7 +104,13 @@ func (a *Allocator) Allocate(hint net.IPNet) (ret net.IPNet, err error) {
 
 // Free returns the given prefix to the available pool if it was taken.
 func (a *Allocator) Free(prefix net.IPNet) error {
-	idx, err := a.toIndex(prefix.IP.Mask(prefix.Mask))
+	base := prefix.IP.Mask(prefix.Mask)
+	// toIndex computes an absolute distance: a prefix below the pool would
+	// otherwise alias a block inside it
+	if !a.inPool(base) {
+		return fmt.Errorf("Could not find prefix in pool: %s is outside of %s", &prefix, &a.containing)
+	}
+	idx, err := a.toIndex(base)
 	if err != nil {
 		return fmt.Errorf("Could not find prefix in pool: %w", err)
 	}
